@@ -257,3 +257,90 @@ def check_constructors(prog, ctx):
         for fam, wmsg in sorted(mine.items()):
             ctx.check(False, rid, f, f.node, fam, f"{msg} — witness: {wmsg}")
     return len(cases), len(pj)
+
+
+def check_class_tables(prog, ctx):
+    """R16.8 by evaluation: utils.from_dense(symmetry=S, fermionic=F) builds the class named <S>[Fermionic]Array for every pair; each of
+    those classes resolves to its own symmetry when none is given and refuses another one."""
+    from engine.absarray import shaped_evaluator
+
+    rid = "R16.8"
+    w = World(prog)
+    fd = prog.func("symmray.utils:from_dense")
+    n = 0
+    for (sym, fm), cname in sorted(FIXED.items()):
+        cls = prog.cls(cname)
+        # the class itself
+        g = prog.lookup_method(cls, "get_class_symmetry")
+        ev = shaped_evaluator(prog)
+        try:
+            own = ev.call(g, [], {}, self_obj=None) if g.is_static else ev.call(g, [], {}, self_obj=cls)
+            okname = isinstance(own, Obj) and own.cls.name == sym
+        except (Raised,) + PYERR:
+            okname = False
+        n += 1
+        ctx.check(okname, rid, g, g.node, f"{cname}: own symmetry", f"{cname}.get_class_symmetry() resolves to the symmetry {sym}")
+        other = "U1" if sym != "U1" else "Z2"
+        try:
+            ev.call(g, [other], {}, self_obj=None) if g.is_static else ev.call(g, [other], {}, self_obj=cls)
+            refused = False
+        except Raised:
+            refused = True
+        except PYERR:
+            refused = True
+        n += 1
+        ctx.check(refused, rid, g, g.node, f"{cname}: other symmetry", f"{cname}.get_class_symmetry({other!r}) is refused")
+        # utils.from_dense picks this class
+        sp = Spec(sym, (False, True), Model(sym).combine(), (TABLES[sym][0], TABLES[sym][0]), fermionic=fm, signs=0)
+        x = sp.build(w)
+        ev = w.ev()
+        try:
+            d = w.meth(ev, sp.build(w), "to_dense")
+            maps = []
+            for t in sp.tables:
+                mp, i = {}, 0
+                for c in sorted(t):
+                    for _ in range(t[c]):
+                        mp[i] = c
+                        i += 1
+                maps.append(mp)
+            y = ev.call(fd, [d, sym, tuple(maps)], {"duals": sp.duals, "fermionic": fm})
+            got = y.cls.name if isinstance(y, Obj) else type(y).__name__
+        except Unsupported as e:
+            raise AnalysisError(f"utils.from_dense outside the evaluable sub-language: {e}")
+        except (Raised,) + PYERR as e:
+            got = f"{type(e).__name__}: {getattr(e, 'what', e)}"
+        n += 1
+        ctx.check(got == cname, rid, fd, fd.node, f"({sym!r}, {fm}) -> {got}"[:80], f"utils.from_dense(symmetry={sym!r}, fermionic={fm}) builds a {cname}"
+                  + ("" if got == cname else f" — got {got}"))
+        # utils.get_rand with explicit charge tables and directions: the same class, those very tables
+        gr = prog.func("symmray.utils:get_rand")
+        fill = lambda shape: STok(("fill", tuple(shape)), tuple(shape))  # noqa: E731
+
+        class _Rng:
+            def choice(self, seq, *a, **k):
+                return list(seq)[0]
+
+            def integers(self, lo, hi=None, *a, **k):
+                return lo
+
+        ev = shaped_evaluator(prog, extra={"get_random_fill_fn": lambda **k: fill, "np.random.default_rng": lambda *a, **k: _Rng(),
+                                           "numpy.random.default_rng": lambda *a, **k: _Rng()})
+        kw = {"duals": list(sp.duals), "charge": sp.charge, "seed": 7, "fermionic": fm}
+        if fm:
+            kw["oddpos"] = 1
+        try:
+            y = ev.call(gr, [sym, tuple(dict(t) for t in sp.tables)], kw)
+            got = y.cls.name if isinstance(y, Obj) else type(y).__name__
+            tabs = [dict(ix.fields["_chargemap"]) for ix in y.fields["_indices"]] if isinstance(y, Obj) else None
+        except Unsupported as e:
+            raise AnalysisError(f"utils.get_rand outside the evaluable sub-language: {e}")
+        except (Raised,) + PYERR as e:
+            got, tabs = f"{type(e).__name__}: {getattr(e, 'what', e)}", None
+        n += 1
+        ok = got == cname and tabs == [dict(t) for t in sp.tables]
+        ctx.check(ok, rid, gr, gr.node, f"get_rand({sym!r}, fermionic={fm}) -> {got}"[:80],
+                  f"utils.get_rand({sym!r}, <explicit charge tables>, fermionic={fm}) builds a {cname} over those tables"
+                  + ("" if ok else f" — got {got} with tables {tabs}"))
+    ctx.minimum(rid, 32, "8 classes x (own symmetry, refusal, utils.from_dense, utils.get_rand)")
+    return n
